@@ -139,12 +139,13 @@ def importGen (base : α) (sw : List Int) (d : GenRec α) : Gen α :=
   ⟨d.bus, sw.contains d.bus, d.status, d.vg, d.pg / base, d.qg / base, d.pmax / base, d.pmin / base,
    d.qmax / base, d.qmin / base⟩
 
-def isLine (d : BrRec α) : Bool := (d.ratio == 0.0) || ((d.ratio == 1.0) && (d.angle == 0.0))
+/-- `mpc2system` (after the repair of the ratio-0 case): a plain line is a record with ratio 0 or 1 AND no shift -/
+def isLine (d : BrRec α) : Bool := ((d.ratio == 0.0) || (d.ratio == 1.0)) && (d.angle == 0.0)
 
 /-- a branch record as a `Line` (no `Sn`: the default 100 MVA) -/
 def importBranch (d2r : α) (d : BrRec α) : Line α :=
   if isLine d then ⟨d.f, d.t, d.status, 100.0, d.r, d.x, d.b, false, 1.0, 0.0, d.ra, d.rb, d.rc⟩
-  else ⟨d.f, d.t, d.status, 100.0, d.r, d.x, d.b, true, d.ratio, d.angle * d2r, d.ra, d.rb, d.rc⟩
+  else ⟨d.f, d.t, d.status, 100.0, d.r, d.x, d.b, true, (if d.ratio == 0.0 then 1.0 else d.ratio), d.angle * d2r, d.ra, d.rb, d.rc⟩
 
 /-- system-base values of a line (`Vn1` = bus voltage in both readers of this file) -/
 def lineV (base : α) (l : Line α) : Line α :=
